@@ -43,7 +43,9 @@ var c13Grammar = struct{ scheme, userinfo, host, port, path, query, frag []strin
 		// label-boundary family: the configured domain with 1..2 extra leading characters and no dot, one character short, and a legitimate one-letter label
 		"xexample.com", "-example.com", "xxexample.com", "1example.com", "xample.com", "x.example.com", "xcorp.example.org"},
 	port:  []string{"", ":443", ":8443", ":", ":x", ":443x"},
-	path:  []string{"", "/", "/cb", "/a/../b", "/%2e%2e/", "/..;/", "//evil.com", "/cb/..", "/\\..\\x", "/a..b"},
+	path:  []string{"", "/", "/cb", "/a/../b", "/%2e%2e/", "/..;/", "//evil.com", "/cb/..", "/\\..\\x", "/a..b",
+		// encodings that only turn into a delimiter or a dot segment when somebody decodes the path once more
+		"/o/%252e%252e/%252e%252e/up", "/cb%3Fnext=https:%2F%2Fevil.com%2F", "/cb%23x", "/cb%2F..%2Fy"},
 	query: []string{"", "?", "?x=1"},
 	frag:  []string{"", "#x", "#@app.example.com"},
 }
@@ -214,9 +216,23 @@ func c13Handler(w *vfWorld, ck *http.Cookie, cfg c13Cfg, raw string, clientID st
 		return true, strings.Replace(c13Key(cfg, raw, why), "CanRedirectToURL", "idpOpenIDCAuthorizationHandler", 1), fmt.Sprintf("authorize redirected with a code to %q (browser host %q) for redirect_uri=%q client=%s", loc, u.Host, raw, cfg.Name), ""
 	}
 	// the emitted Location must land on an allowed host as well
-	la, ldc, lwhy := c13Allowed(c13Cfg{Name: cfg.Name, Domains: cfg.Domains}, strings.SplitN(loc, "?", 2)[0])
+	parts := strings.SplitN(loc, "?", 2)
+	la, ldc, lwhy := c13Allowed(c13Cfg{Name: cfg.Name, Domains: cfg.Domains}, parts[0])
 	if len(cfg.Domains) > 0 && !la && !ldc {
 		return true, "C13|location-differs-from-validated|idpOpenIDCAuthorizationHandler|" + lwhy, fmt.Sprintf("Location %q resolves to host %q", loc, u.Host), ""
+	}
+	// ... and be the validated URL itself: no parent-directory segment in what is
+	// emitted, and no query other than the parameters the server appends
+	if lu := vfParseAbs(parts[0]); lu.OK && lu.DotDot {
+		return true, "C13|location-differs-from-validated|idpOpenIDCAuthorizationHandler|dotdot-in-emitted-location", fmt.Sprintf("redirect_uri=%q was validated, Location %q carries a parent-directory segment", raw, loc), ""
+	}
+	if len(parts) == 2 {
+		for _, kv := range strings.Split(parts[1], "&") {
+			k := strings.SplitN(kv, "=", 2)[0]
+			if k != "code" && k != "state" || strings.Contains(kv, "?") {
+				return true, "C13|location-differs-from-validated|idpOpenIDCAuthorizationHandler|query-in-emitted-location", fmt.Sprintf("redirect_uri=%q was validated, Location %q carries a query the client supplied (%q)", raw, loc, kv), ""
+			}
+		}
 	}
 	return false, "", "", fmt.Sprintf("handler|%s|code-sent|%s", cfg.Name, why)
 }
